@@ -54,14 +54,14 @@ Proof.
 Qed.
 Lemma pre_take_n : forall n, pre (take_n n).
 Proof.
-  intros n bs a r E. unfold run, take_n in E. destruct (n <=? length bs)%nat; cbn [fst] in E; [|discriminate].
-  inversion E; subst. exists (firstn n bs). symmetry. apply firstn_skipn.
+  intros n bs a r E. unfold run, take_n in E. destruct (take_nat n bs) as [[p q]|] eqn:T; cbn [fst] in E; [|discriminate].
+  inversion E; subst. apply take_nat_some in T. destruct T as [-> _]. exists a. reflexivity.
 Qed.
 Lemma spre_take_n : forall n, (0 < n)%nat -> spre (take_n n).
 Proof.
-  intros n Hn bs a r E. unfold run, take_n in E. destruct (n <=? length bs)%nat eqn:L; cbn [fst] in E; [|discriminate].
-  inversion E; subst. exists (firstn n bs). split. symmetry; apply firstn_skipn.
-  apply Nat.leb_le in L. intros Z. apply (f_equal (@length N)) in Z. rewrite firstn_length in Z. cbn in Z. lia.
+  intros n Hn bs a r E. unfold run, take_n in E. destruct (take_nat n bs) as [[p q]|] eqn:T; cbn [fst] in E; [|discriminate].
+  inversion E; subst. apply take_nat_some in T. destruct T as [-> Hl]. exists a. split; [reflexivity|].
+  intros Z. subst a. cbn in Hl. lia.
 Qed.
 Lemma pre_alloc : forall c n sz, pre (alloc c n sz).
 Proof.
@@ -87,14 +87,14 @@ Proof. unfold de_bool. pre_auto. Qed.
 #[export] Hint Resolve spre_bool : pre.
 
 Lemma pre_raw_str : forall n, pre (fun bs : list N =>
-    if n <=? len_N bs then
-      let s := firstn (N.to_nat n) bs in
-      if utf8_valid s then (Ok (s, skipn (N.to_nat n) bs), 0) else (Err EDeser, 0)
-    else (@Err (bytes * list N) EDeser, 0)).
+    match split_n bs n with
+    | Some (s, r) => if utf8_valid s then (Ok (s, r), 0) else (Err EDeser, 0)
+    | None => (@Err (bytes * list N) EDeser, 0)
+    end).
 Proof.
-  intros n bs a r E. unfold run in E. destruct (n <=? len_N bs); cbn [fst] in E; [|discriminate].
-  cbv zeta in E. destruct (utf8_valid _); cbn [fst] in E; [|discriminate]. inversion E; subst.
-  exists (firstn (N.to_nat n) bs). symmetry; apply firstn_skipn.
+  intros n bs a r E. unfold run in E. destruct (split_n bs n) as [[s q]|] eqn:S0; cbn [fst] in E; [|discriminate].
+  destruct (utf8_valid s); cbn [fst] in E; [|discriminate]. inversion E; subst.
+  apply split_n_some in S0. destruct S0 as [-> _]. exists a. reflexivity.
 Qed.
 Lemma spre_str : forall c, spre (de_str c).
 Proof.
@@ -114,7 +114,7 @@ Qed.
 Lemma pre_list : forall A (elem : M A) n, pre elem -> pre (de_list elem n).
 Proof.
   intros A elem n He bs a r E. unfold de_list in E.
-  change (run (de_list_go elem (S (length bs)) n) bs = Ok (a, r)) in E.
+  change (run (de_list_go elem (list_fuel bs n) n) bs = Ok (a, r)) in E.
   eapply pre_list_go; eauto.
 Qed.
 #[export] Hint Resolve pre_list : pre.
@@ -264,7 +264,7 @@ Qed.
 Lemma nf_u8 : nf de_u8.
 Proof. intros bs. unfold run, de_u8. destruct bs; cbn [fst]; discriminate. Qed.
 Lemma nf_take_n : forall n, nf (take_n n).
-Proof. intros n bs. unfold run, take_n. destruct (n <=? length bs)%nat; cbn [fst]; discriminate. Qed.
+Proof. intros n bs. unfold run, take_n. destruct (take_nat n bs); cbn [fst]; discriminate. Qed.
 Lemma nf_alloc : forall c n sz, nf (alloc c n sz).
 Proof. intros c n sz bs. unfold run, alloc. destruct (isize_max <? _); cbn [fst]; discriminate. Qed.
 #[export] Hint Resolve nf_u8 nf_take_n nf_alloc nf_ret : nf.
@@ -285,7 +285,7 @@ Lemma nf_str : forall c, nf (de_str c).
 Proof.
   intros c. unfold de_str, de_usize. apply nf_bind; [apply nf_u64|]. intros n.
   apply nf_bind; [apply nf_alloc|]. intros _ bs. unfold run.
-  destruct (n <=? len_N bs); cbn [fst]; [|discriminate]. cbv zeta. destruct (utf8_valid _); cbn [fst]; discriminate.
+  destruct (split_n bs n) as [[s0 q]|]; cbn [fst]; [|discriminate]. destruct (utf8_valid _); cbn [fst]; discriminate.
 Qed.
 #[export] Hint Resolve nf_str : nf.
 
@@ -294,20 +294,23 @@ Proof. intros c. unfold de_ident. nf_auto. Qed.
 #[export] Hint Resolve nf_ident : nf.
 
 Lemma nf_list_go : forall A (elem : M A), nf elem -> spre elem ->
-  forall fuel n bs, (length bs < fuel)%nat -> run (de_list_go elem fuel n) bs <> Err EOutOfFuel.
+  forall fuel n bs, (n < N.of_nat fuel \/ (length bs < fuel)%nat) -> run (de_list_go elem fuel n) bs <> Err EOutOfFuel.
 Proof.
-  intros A elem Hn Hp. induction fuel as [|f IH]; intros n bs Hl; [lia|].
-  cbn [de_list_go]. destruct (n =? 0). { rewrite run_ret. discriminate. }
-  rewrite run_bind. specialize (Hn bs). destruct (run elem bs) as [[x r]|e|s] eqn:E; try congruence.
-  destruct (Hp _ _ _ E) as [p [-> Hne]]. rewrite run_bind.
-  assert (Hr : (length r < f)%nat). { rewrite app_length in Hl. destruct p; [congruence|]. cbn [length] in Hl. lia. }
-  specialize (IH (n - 1) r Hr). destruct (run (de_list_go elem f (n - 1)) r) as [[xs r']|e|s]; try congruence.
-  rewrite run_ret. discriminate.
+  intros A elem Hn Hp. induction fuel as [|f IH]; intros n bs Hl.
+  - destruct Hl as [Hl|Hl]; [|lia]. cbn in Hl. lia.
+  - cbn [de_list_go]. destruct (n =? 0) eqn:E0. { rewrite run_ret. discriminate. }
+    apply N.eqb_neq in E0.
+    rewrite run_bind. specialize (Hn bs). destruct (run elem bs) as [[x r]|e|s] eqn:E; try congruence.
+    destruct (Hp _ _ _ E) as [p [-> Hne]]. rewrite run_bind.
+    assert (Hr : n - 1 < N.of_nat f \/ (length r < f)%nat).
+    { destruct Hl as [Hl|Hl]; [left; lia | right]. rewrite app_length in Hl. destruct p; [congruence|]. cbn [length] in Hl. lia. }
+    specialize (IH (n - 1) r Hr). destruct (run (de_list_go elem f (n - 1)) r) as [[xs r']|e|s]; try congruence.
+    rewrite run_ret. discriminate.
 Qed.
 Lemma nf_list : forall A (elem : M A) n, nf elem -> spre elem -> nf (de_list elem n).
 Proof.
-  intros A elem n Hn Hp bs. unfold de_list. change (run (de_list_go elem (S (length bs)) n) bs <> Err EOutOfFuel).
-  apply nf_list_go; auto.
+  intros A elem n Hn Hp bs. unfold de_list. change (run (de_list_go elem (list_fuel bs n) n) bs <> Err EOutOfFuel).
+  apply nf_list_go; auto. apply list_fuel_spec.
 Qed.
 #[export] Hint Resolve nf_list : nf.
 
@@ -467,7 +470,7 @@ Qed.
 Lemma allp_u8 : allp de_u8.
 Proof. intros bs. unfold de_u8. destruct bs; exact Q0. Qed.
 Lemma allp_take_n : forall n, allp (take_n n).
-Proof. intros n bs. unfold take_n. destruct (n <=? length bs)%nat; exact Q0. Qed.
+Proof. intros n bs. unfold take_n. destruct (take_nat n bs); exact Q0. Qed.
 Hint Resolve allp_ret allp_fail allp_u8 allp_take_n : allp.
 
 Ltac allp_auto :=
@@ -486,7 +489,7 @@ Lemma allp_str : allp (de_str c).
 Proof.
   unfold de_str, de_usize. apply allp_bind; [apply allp_u64|]. intros n.
   apply allp_bind. { apply Qalloc. pose proof (max_sz_ge (c_sz c)). lia. }
-  intros _ bs. destruct (n <=? len_N bs); [|exact Q0]. cbv zeta. destruct (utf8_valid _); exact Q0.
+  intros _ bs. destruct (split_n bs n) as [[s0 q]|]; [|exact Q0]. destruct (utf8_valid _); exact Q0.
 Qed.
 Hint Resolve allp_str : allp.
 Lemma allp_ident : allp (de_ident c).
@@ -655,7 +658,7 @@ Qed.
 Lemma post_list : forall A (P : A -> bool) (elem : M A) n, post (fun x => P x = true) elem ->
   post (fun l => forallb P l = true /\ len_N l = n) (de_list elem n).
 Proof.
-  intros A P elem n He bs a r E. unfold de_list in E. change (run (de_list_go elem (S (length bs)) n) bs = Ok (a, r)) in E.
+  intros A P elem n He bs a r E. unfold de_list in E. change (run (de_list_go elem (list_fuel bs n) n) bs = Ok (a, r)) in E.
   eapply post_list_go; eauto.
 Qed.
 
